@@ -105,6 +105,19 @@ class C19(CfProp):
             elif kind == "comp":
                 c["roots"] = [rand_cf_var(rng, g["nodes"]) for _ in range(rng.randint(1, 3))]
                 c["conds"] = [rand_cf_var(rng, g["nodes"], 1) for _ in range(rng.randint(0, 2))]
+                two = [(a, b, d) for a, b in g["dir"] for b2, d in g["dir"] if b2 == b and d != a]
+                if two and rng.random() < 0.3:
+                    # one variable in two worlds among the roots, conditioned on a mediator in the counterfactual world: P(Y_x, Y | Z_x) on x -> z -> y.
+                    # The conditioned variable's out-edges are cut in the set of Y_x only, where the remaining ancestors lose their subscript:
+                    # the factual root Y is NOT the plain Y inside that set
+                    x, z, y = rng.choice(two)
+                    sub = [[GE.ALPHA[x], rng.random() < 0.3]]
+                    zx = {"k": "C", "n": GE.ALPHA[z], "s": None, "i": sub}
+                    roots = [{"k": "C", "n": GE.ALPHA[y], "s": None, "i": sub}, {"k": "V", "n": GE.ALPHA[y], "s": None}, zx]
+                    if rng.random() < 0.3:
+                        roots.append(rand_cf_var(rng, g["nodes"]))
+                    rng.shuffle(roots)
+                    c["roots"], c["conds"] = roots, [zx]
             elif kind == "simp":
                 ev = []
                 for _ in range(rng.randint(1, 4)):
